@@ -32,6 +32,10 @@ CHECKS = {
          "Invalid operations (each rejection reason x operation) are attempted at random points; when an operation raises, the complete projection of the definitions and all held values must equal the ones before; after accepted edits the reported base relation must be acyclic with a C3 order for every space and only valid names exist.", "§4 C11"),
  "C12": ("model_checking", "trace validation: per-space name sets pairwise disjoint, dir() = Visible(D) computed by TLA+, library self-checks pass after every operation",
          "After every operation: cells / own references / child spaces of each space are pairwise disjoint, model-level names are unique, dir(space) equals the namespace the spec derives from the definitions, and modelx's own _check_sanity passes.", "§4 C12"),
+ "C14": ("fault_enumeration", "fault injection at every audited file operation of save/load (sys.addaudithook) judged by TLC against MxSave; MxSave model-checked at file-operation granularity incl. every crash point",
+         "Every file-system / pickling operation of a save or load (observed and failed in-process through an audit hook) is taken as the failure point for both formats, backups on/off, over a corpus of models and sequences of saves; after every attempt each slot (path, _BAK1.._BAK3) is classified by reading it back and TLC judges LastGoodSafe / GenerationsOrdered / GenerationsKept / NoPartialZip / SessionUsable / NoHalfLoadedModel on the recorded slot tables. The MxSave model (rotation, directory and zip write, move, cleanup, load) is model-checked exhaustively with a failure enabled at every step, and its histories are replayed on the code.", "§4 C14"),
+ "C16": ("model_checking", "TLC model check of MxActions (get_calcsteps transcribed, calc/paste/clear on an abstract cache) over all DAGs x targets x steps x topological orders; every TLC-enumerated case executed on the real library and judged by the trace spec",
+         "All DAGs on <= 4 (thorough 5) nodes x all target sets x step sizes x topological orders are model-checked; every case TLC enumerates is built as real cells, generate_actions/execute_actions are run with formula executions counted by sys.monitoring, and TLC judges the five predicates on the recorded data (plus DRIFT when the plan differs from the transcribed planner).", "§4 C16"),
  "C13": ("model_checking", "trace validation: every handle ever obtained is dead or is the current object at an existing place; no held value or graph node of a non-existing element",
          "The harness keeps a handle to every object it ever saw and probes it after every operation; TLC requires each to be dead (all probes raise DeletedObjectError) or to be the object currently found at the place it reports, which must exist in the definitions; held values and graph nodes must belong to existing elements.", "§4 C13"),
 }
